@@ -440,6 +440,12 @@ def request_deps(ctx):
         # the kind must range over both constants
         kat = b.prov.operand_atoms(agg_field_op(st, "kind"))
         kinds = atom_aggs(kat, "ExecutionKind")
+        # a constructor helper (`fn requested_by_root(kind)`): the kinds are what its callers pass
+        for a in b.prov.operand_atoms(agg_field_op(st, "kind"), interproc=False):
+            if a[0] == "param" and not b.coroutine:
+                for (cv, cbb, ct) in r.callers_of(b, prefer=[]):
+                    if a[1] - 1 < len(ct["args"]):
+                        kinds |= atom_aggs(cv.prov.operand_atoms(ct["args"][a[1] - 1]), "ExecutionKind")
         ctx.check({"Build", "Service"} <= kinds, f"root-request/{short(b.name)}", [site(b, bb)],
                   f"root targets are requested for {sorted(kinds)} only", props=["C04"])
 
